@@ -26,7 +26,7 @@ import (
 
 type forgetOp struct {
 	Value int  `json:"value"` // index into the fixture's values
-	How   int  `json:"how"`   // 0 ReadBuf dropped, bank never extracted; 1 bank extracted and forgotten; 2 extracted and closed (value not kept)
+	How   int  `json:"how"`   // 0 ReadBuf dropped, bank never extracted; 1 bank extracted and forgotten; 2 extracted and closed (value not kept); 3 decoded through the case's one long-lived ReadBuf (Reset for every message, its bank never extracted)
 	GC    bool `json:"gc"`    // collect (and let finalizers run) after this step
 }
 
@@ -97,14 +97,21 @@ func runC10C(c forgetCase) (bool, []string, error) {
 		collectAndFinalize()
 		return gcs > 0 && len(kept) > len(f.abs), []string{"file_banks_forgotten"}, check("after the reads")
 	}
+	shared := avro.NewReadBuf(nil)
 	for step, op := range c.Ops {
 		vi := op.Value % len(f.values)
 		out := reflect.New(f.typ)
 		rb := avro.NewReadBuf(f.bodies[vi])
+		if op.How%4 == 3 {
+			rb = shared
+			rb.Reset(f.bodies[vi])
+		}
 		if err := f.codec.Read(rb, out.UnsafePointer()); err != nil {
 			return true, nil, fmt.Errorf("step %d: decode: %v", step, err)
 		}
-		switch op.How % 3 {
+		switch op.How % 4 {
+		case 3:
+			kept = append(kept, keptRec{out.Elem(), f.abs[vi], step})
 		case 0:
 			kept = append(kept, keptRec{out.Elem(), f.abs[vi], step})
 		case 1:
@@ -137,7 +144,7 @@ func TestC10C(t *testing.T) {
 		}
 		n := gen.UniformRange(t, "nops", 4, 120)
 		for i := 0; i < n; i++ {
-			c.Ops = append(c.Ops, forgetOp{Value: gen.Uniform(t, "value", 5), How: gen.Uniform(t, "how", 3), GC: gen.Uniform(t, "gc", 8) == 0})
+			c.Ops = append(c.Ops, forgetOp{Value: gen.Uniform(t, "value", 5), How: gen.Uniform(t, "how", 4), GC: gen.Uniform(t, "gc", 8) == 0})
 		}
 		return c
 	}, runC10C)
